@@ -23,17 +23,17 @@ type planEntry struct {
 
 var treePlan = []planEntry{
 	{spaces.B, 5, 6},
-	{spaces.I, 4, 5},
+	{spaces.I, 5, 6},
 	{spaces.L, 3, 4},
-	{spaces.XHead, 6, 7},
-	{spaces.XRef, 5, 6},
-	{spaces.XLink, 5, 6},
-	{spaces.XCode, 6, 7},
+	{spaces.XHead, 7, 8},
+	{spaces.XRef, 6, 7},
+	{spaces.XLink, 6, 7},
+	{spaces.XCode, 7, 8},
 	{spaces.XHTML, 5, 6},
-	{spaces.XEmph, 6, 7},
-	{spaces.XList, 6, 7},
-	{spaces.XNul, 5, 6},
-	{spaces.XEol, 5, 6},
+	{spaces.XEmph, 7, 8},
+	{spaces.XList, 7, 8},
+	{spaces.XNul, 6, 7},
+	{spaces.XEol, 6, 7},
 }
 
 // forPlan runs f over every space of a plan at the tier's length.
